@@ -41,7 +41,8 @@ Section Main.
     (forall i, i < n -> ~ core i -> (exists q, In q (nb i) /\ core q) ->
        exists q, In q (nb i) /\ core q /\ get y i = get y q) /\
     (forall i, i < n -> ~ core i -> (forall q, In q (nb i) -> ~ core q) -> get y i = (-1)%Z) /\
-    (forall l, (0 <= l < c)%Z -> exists i, i < n /\ core i /\ get y i = l).
+    (forall l, (0 <= l < c)%Z -> exists i, i < n /\ core i /\ get y i = l) /\
+    (forall i q, i < n -> In q (nb i) -> core q -> (0 <= get y i <= get y q)%Z).
   Proof.
     intros y c Hrun. pose proof (dbscan_inv nb minpts n Hrange Hsym y c Hrun) as HO.
     assert (Hlab : forall i, i < n -> get y i = (-1)%Z \/ (0 <= get y i < c)%Z).
@@ -51,7 +52,7 @@ Section Main.
     { intros i Hi Hc. destruct (Hlab i Hi) as [H|H]; [|exact H].
       exfalso. eapply (o_out _ _ _ _ _ _ HO); eauto. }
     split; [apply (o_len _ _ _ _ _ _ HO)|]. split; [apply (o_k _ _ _ _ _ _ HO)|].
-    split; [exact Hlab|]. split; [exact Hcore|]. split; [|split; [|split]].
+    split; [exact Hlab|]. split; [exact Hcore|]. split; [|split; [|split; [|split]]].
     - intros i j Hi Hj Hci Hcj. split.
       + intro Heq. destruct (o_seed _ _ _ _ _ _ HO (get y i) (Hcore i Hi Hci)) as (s & _ & Hs & _ & _ & Hconn & _).
         pose proof (Hconn i Hi Hci eq_refl) as C1.
@@ -63,13 +64,16 @@ Section Main.
       assert (Hqn : q < n) by eauto.
       pose proof (Hcore q Hqn Q2) as Hq.
       destruct (o_closed _ _ _ _ _ _ HO q i Hqn Q2 ltac:(lia) (Hsym i q Hi Q1)) as [A _].
-      destruct (o_border _ _ _ _ _ _ HO i Hi Hnc A) as (q' & Q1' & Q2' & Q3').
+      destruct (o_border _ _ _ _ _ _ HO i Hi Hnc ltac:(lia)) as (q' & Q1' & Q2' & Q3').
       exists q'. auto.
     - intros i Hi Hnc Hnone. destruct (Hlab i Hi) as [H|H]; [exact H|exfalso].
       destruct (o_border _ _ _ _ _ _ HO i Hi Hnc ltac:(lia)) as (q & Q1 & Q2 & _).
       exact (Hnone q Q1 Q2).
     - intros l Hl. destruct (o_seed _ _ _ _ _ _ HO l Hl) as (s & _ & Hs & Hc & Hy & _).
       exists s. auto.
+    - intros i q Hi Hin Hcq. assert (Hqn : q < n) by eauto.
+      pose proof (Hcore q Hqn Hcq) as Hq.
+      destruct (o_closed _ _ _ _ _ _ HO q i Hqn Hcq ltac:(lia) (Hsym i q Hi Hin)) as [A _]. exact A.
   Qed.
 
   (* the seed of cluster l is the smallest core index whose label is >= l: cluster ids follow index order *)
@@ -123,7 +127,7 @@ Section Main.
   Lemma weight_ext : forall y y' s, length y = length y' ->
     (forall j, is_open (get y j) = is_open (get y' j)) -> weight_from s y = weight_from s y'.
   Proof.
-    induction y as [|h t IH]; intros [|h' t'] s Hlen Hpt; simpl in Hlen; try lia; [reflexivity|].
+    induction y as [|h t IH]; intros [|h' t'] s Hlen Hpt; simpl in Hlen; try lia; try reflexivity.
     cbn [weight_from]. pose proof (Hpt 0) as H0. unfold get in H0; cbn [nth] in H0. rewrite H0.
     f_equal. apply IH; [lia|]. intro j. apply (Hpt (S j)).
   Qed.
